@@ -44,7 +44,7 @@ fn tails(alpha: &[Pkt]) -> Vec<(String, Vec<u8>)> {
 
 pub fn run(tier: Tier) -> i32 {
     let rep = Report::new("C10", tier);
-    rep.set_rule("(1) lemma: for every receiver state of the C08 closure (1 slot: closure; 2 slots: depth 7, thorough closure) x every lemma packet of the 46-packet alphabet (valid packets and those rejected for bad CRC / unknown id / no storage / unknown mandatory extension / unresolvable re-use / oversize) x every tail (1..4 zero bytes, every alphabet packet, FF*8, extension-like bytes, zero label, one byte): decap(q||t) equals decap(q) in outcome, consumed length = |q| and successor snapshot; (2) 2..=6 zero bytes give Padding consuming all in every state; (3) all frames of <= 3 (thorough 4) packets drawn from two real fragment trains continuing across frames plus complete packets and rejected packets, followed by 0..=5 zero bytes, are walked by consumed lengths and compared with stand-alone decapsulation; (4) every packet of the corpus is checked not to read as padding; (5) frames of 4097..70000 bytes filled greedily by the real encapsulator with PDUs around and above the 4095-byte limit (fragments continuing across frames), walked by consumed lengths against a twin receiver fed each packet alone, every PDU delivered once in order. distinct = (packet, outcome)");
+    rep.set_rule("(1) lemma: for every receiver state of the C08 closure (1 slot: closure; 2 slots: depth 7, thorough closure) x every lemma packet of the 46-packet alphabet (valid packets and those rejected for bad CRC / unknown id / no storage / unknown mandatory extension / unresolvable re-use / oversize) x every tail (1..4 zero bytes, every alphabet packet, FF*8, extension-like bytes, zero label, one byte): decap(q||t) equals decap(q) in outcome, consumed length = |q| and successor snapshot; (2) 2..=6 zero bytes give Padding consuming all in every state; (3) all frames of <= 3 (thorough 4) packets drawn from two real fragment trains continuing across frames plus complete packets and rejected packets, followed by 0..=5 zero bytes, are walked by consumed lengths and compared with stand-alone decapsulation; (4) every packet of the corpus is checked not to read as padding; (5) frames of 4097..70000 bytes filled greedily by the real encapsulator (encap, and encap_ext for every second PDU; consecutive PDUs share their label, so re-use labels occur) with PDUs around and above the 4095-byte limit (fragments continuing across frames), walked by consumed lengths against a twin receiver fed each packet alone, every PDU delivered once in order. distinct = (packet, outcome)");
     rep.assume("frames longer than 4 packets follow from the lemma by induction on the position (the successor state after each packet is a state of the closure, where the lemma was checked)");
     let mgr = mgr_std();
     for slots in [1usize, 2] {
@@ -158,6 +158,8 @@ fn large_frames(rep: &Report, tier: Tier) {
                 }
                 let out = match cur {
                     Some((pi, ctx)) => do_encap_frag(&enc, &pdus[pi], ctx, room),
+                    // every second PDU goes through encap_ext with one optional extension
+                    None if next_pdu < pdus.len() && next_pdu % 2 == 1 => do_encap_ext(&mut enc, &pdus[next_pdu], (next_pdu % 4) as u8, 0x0800, l, room, &[(0x0202, vec![0xE1, 0xE2])]),
                     None if next_pdu < pdus.len() => do_encap(&mut enc, &pdus[next_pdu], (next_pdu % 4) as u8, 0x0800, l, room),
                     None => break,
                 };
@@ -278,7 +280,7 @@ fn end_to_end(rep: &Report, tier: Tier) {
             }
         }
         if let Some((n, mut ctx, b)) = first {
-            out.push(b[..n].to_vec());
+            out.push(b[..(n).min(b.len())].to_vec());
             loop {
                 let rem = pd.len() - ctx.pos as usize;
                 let mut done = false;
@@ -287,12 +289,12 @@ fn end_to_end(rep: &Report, tier: Tier) {
                     let mut bb = vec![0u8; bl];
                     match do_encap_frag(enc, pd, ctx, &mut bb) {
                         EncOut::Fragmented(n2, c2) => {
-                            out.push(bb[..n2].to_vec());
+                            out.push(bb[..(n2).min(bb.len())].to_vec());
                             ctx = c2;
                             progressed = true;
                         }
                         EncOut::Completed(n2) => {
-                            out.push(bb[..n2].to_vec());
+                            out.push(bb[..(n2).min(bb.len())].to_vec());
                             done = true;
                             progressed = true;
                         }
@@ -317,15 +319,15 @@ fn end_to_end(rep: &Report, tier: Tier) {
     let mut singles: Vec<(String, Vec<u8>)> = vec![];
     let mut b = vec![0u8; 64];
     let n = do_encap(&mut enc, &[0xC1, 0xC2], 0, 0x0800, Lbl::Bcast, &mut b).len().unwrap();
-    singles.push(("complete-bcast".into(), b[..n].to_vec()));
+    singles.push(("complete-bcast".into(), b[..(n).min(b.len())].to_vec()));
     let n = do_encap(&mut enc, &[0xC3], 0, 0x86DD, L6B, &mut b).len().unwrap();
-    singles.push(("complete-6B".into(), b[..n].to_vec()));
+    singles.push(("complete-6B".into(), b[..(n).min(b.len())].to_vec()));
     let n = do_encap(&mut enc, &[0xC4], 0, 0x86DD, L6B, &mut b).len().unwrap();
-    singles.push(("complete-6B-reuse".into(), b[..n].to_vec()));
+    singles.push(("complete-6B-reuse".into(), b[..(n).min(b.len())].to_vec()));
     let n = do_encap_ext(&mut enc, &[0xC5], 0, 0x0800, L3B, &mut b, &[(0x0033, vec![0x01])]).len().unwrap();
-    singles.push(("complete-unknown-mandatory".into(), b[..n].to_vec()));
+    singles.push(("complete-unknown-mandatory".into(), b[..(n).min(b.len())].to_vec()));
     let n = do_encap(&mut enc, &[0xC6; 9], 0, 0x0800, Lbl::Bcast, &mut b).len().unwrap();
-    singles.push(("complete-oversize".into(), b[..n].to_vec()));
+    singles.push(("complete-oversize".into(), b[..(n).min(b.len())].to_vec()));
     let mut badcrc = ta.last().unwrap().clone();
     let k = badcrc.len() - 1;
     badcrc[k] ^= 0x55;
